@@ -179,6 +179,14 @@ pub fn mint_valid(key: &ServerKey, grants: &Grants, rng: &mut Rng) -> Result<Str
     encode(&Header::new(alg), &claims(grants, exp), &k).map_err(|e| e.to_string())
 }
 
+/// A correctly signed token that is still accepted now but only because of jsonwebtoken's default
+/// leeway of 60 s: it stops being valid `valid_for` seconds from now. Returns (token, exp).
+pub fn mint_aging(key: &ServerKey, grants: &Grants, valid_for: u64) -> Result<(String, u64), String> {
+    let (alg, k) = key.signing()?;
+    let exp = now() + valid_for - 60;
+    Ok((encode(&Header::new(alg), &claims(grants, exp), &k).map_err(|e| e.to_string())?, exp))
+}
+
 /// classes of tokens that must never authorize a session
 #[derive(Clone, Copy, Debug, PartialEq, Eq, PartialOrd, Ord)]
 pub enum BadToken {
